@@ -32,6 +32,8 @@ func extraOpts(spec, target string) []gtree.Option {
 			opts = append(opts, gtree.WithNoUseIterOfSimpleOutput())
 		case "nil":
 			opts = append(opts, nil)
+		case "dry":
+			opts = append(opts, gtree.WithDryRun())
 		case "strict":
 			opts = append(opts, gtree.WithStrictVerify())
 		case "exts":
